@@ -27,23 +27,53 @@ const HEAD: &str = r#"begin
     let B : VType = data | +T : Unit | +F : Int64 end that
     let O : VType = data | +N : Unit | +J : Int64 * Int64 | +K : B end that
     let B1 : VType = data | +T : Unit end that
+    let P2 : VType = data | +P2 : Int64 * Int64 end that
+    let P3 : VType = data | +P3 : Int64 * Int64 * Int64 end that
+    let P4 : VType = data | +P4 : Int64 * Int64 * Int64 * Int64 end that
+    let P5 : VType = data | +P5 : Int64 * Int64 * Int64 * Int64 * Int64 end that
+    let P6 : VType = data | +P6 : Int64 * Int64 * Int64 * Int64 * Int64 * Int64 end that
+    let P7 : VType = data | +P7 : Int64 * Int64 * Int64 * Int64 * Int64 * Int64 * Int64 end that
 "#;
+
+/// spec/ZyProducts.tla, family "mon": a tuple built and taken apart inside the block, one component returned
+fn render_tuple_program(c: &Value) -> String {
+    let n = c["n"].as_u64().unwrap() as usize;
+    let k = c["k"].as_u64().unwrap() as usize;
+    let j = c["pick"].as_u64().unwrap();
+    let tuple = format!("({})", (1..=n).map(|i| i.to_string()).collect::<Vec<_>>().join(", "));
+    let mut names: Vec<String> = (1..=k).map(|i| format!("x{i}")).collect();
+    if k < n {
+        names.push("rest".into());
+    }
+    let pat = format!("({})", names.join(", "));
+    let ty = vec!["Int64"; n].join(" * ");
+    match c["build"].as_str().unwrap() {
+        | "doret" => format!("do t <- ret {tuple}; let {pat} = t in ret x{j}"),
+        | "let" => format!("let t = {tuple} in let {pat} = t in ret x{j}"),
+        | "direct" => format!("let {pat} = {tuple} in ret x{j}"),
+        | "ctor" => format!("do c <- ret (+P{n}{tuple} : P{n}); match c | +P{n}{pat} => ret x{j} end"),
+        | _ => format!("do f <- ret {{ fn (t : {ty}) => let {pat} = t in ret x{j} }}; ! f {tuple}"),
+    }
+}
 
 /// zyconf replay-monadic CASES SUMMARY
 pub fn replay_monadic(cases_path: &str, out_path: &str) {
-    let cases: Vec<Value> = read_ndjson(std::path::Path::new(cases_path)).into_iter().filter(|c| c["res"]["verdict"] == "accept" && c["res"]["end"] == "ret").collect();
+    let cases: Vec<Value> = read_ndjson(std::path::Path::new(cases_path)).into_iter().filter(|c| c["fam"] == "mon" || (c["res"]["verdict"] == "accept" && c["res"]["end"] == "ret")).collect();
     let results: Vec<(Vec<Value>, &'static str, Option<Value>)> = par_map_with(
         &cases,
         threads(),
         |tid| Analyzer::new(&format!("mon{tid}")),
         |an, idx, case| {
-            let toks = case["prog"].as_array().unwrap();
-            let mut i = 0;
-            let root = parse(toks, &mut i);
-            let want = case["res"]["val"].as_i64().unwrap();
-            let ann = if idx % 2 == 0 { Ann::Full } else { Ann::Lean };
-            let mut r = Renderer { ann, naming: Naming::Unique, rng: Rng(idx as u64) };
-            let body = r.term(&root, &[], &[]);
+            let (body, want) = if case["fam"] == "mon" {
+                (render_tuple_program(case), case["val"].as_i64().unwrap())
+            } else {
+                let toks = case["prog"].as_array().unwrap();
+                let mut i = 0;
+                let root = parse(toks, &mut i);
+                let ann = if idx % 2 == 0 { Ann::Full } else { Ann::Lean };
+                let mut r = Renderer { ann, naming: Naming::Unique, rng: Rng(idx as u64) };
+                (r.term(&root, &[], &[]), case["res"]["val"].as_i64().unwrap())
+            };
             let src = format!(
                 "{HEAD}    def ! translated = @[monadic] begin\n      ({body} : Ret Int64)\n    end that\n    def ! plain : Ret Int64 =\n      {body}\n    that\n    do v1 <- ! translated Ret {{ ! ret_monad }};\n    do v2 <- ! plain;\n    ! (int64/eq) OS v1 v2 {{ ! (process/exit) v1 }} {{ do d <- ! (int64/add) 100 v1; ! (process/exit) d }}\n  end\nend\n"
             );
